@@ -305,7 +305,7 @@ def spin_exhaustive(max_len=5):
 
 
 def stress_cases(tier, rng):
-    it = 3000 if tier == "quick" else 40000
+    it = 3000 if tier == "quick" else 100000
     cs = []
     for nt in (2, 3, 4):
         cs.append(("stressT%d" % nt, ["stress T %d %d %d" % (nt, it, 0)]))
